@@ -418,6 +418,23 @@ for _p in CORE_CLASSES:
     ENGINES.setdefault(_p, []).extend([engine_model, engine_sim, engine_core])
 
 
+# engines that live in their own module tools/engine_<name>.py (loaded lazily: they import this module)
+ENGINE_MODULES = {
+    "C18": ["engine_transient"],
+    "C19": ["engine_signals"],
+    "C20": ["engine_token"],
+}
+
+
+def engines_for(prop):
+    import importlib
+    out = list(ENGINES.get(prop, []))
+    for name in ENGINE_MODULES.get(prop, []):
+        if os.path.exists("%s/tools/%s.py" % (ROOT, name)):
+            out.append(importlib.import_module(name).engine)
+    return out
+
+
 def apply_known(prop, res):
     """Downgrade violations that match an *open* known finding (by property + clause + scenario signature)."""
     known = [k for k in load_known() if k.get("property") == prop and k.get("status") == "open"]
@@ -461,7 +478,7 @@ def main():
     prop = args[0]
     tier = args[1] if len(args) > 1 and args[1] in ("quick", "thorough") else os.environ.get("VERIF_TIER", "quick")
     seed = int(os.environ.get("VERIF_SEED", "1"))
-    if prop not in ENGINES:
+    if not engines_for(prop):
         print("no check registered for", prop)
         return 2
     work = "%s/work/%s_%s_%d" % (ROOT, prop, tier, os.getpid())
@@ -474,7 +491,7 @@ def main():
             rp = json.load(open(args[args.index("--replay") + 1]))
             res.merge(run_core(prop, [rp["scenario"]], work, "replay"))
         else:
-            for eng in ENGINES[prop]:
+            for eng in engines_for(prop):
                 res.merge(eng(prop, tier, seed, work))
         apply_known(prop, res)
         level = "model_checking"
